@@ -542,7 +542,9 @@ where
         if !self.is_in_bounds(idx.end) {
             return Err(Error::OffsetOutOfBounds(idx.end.0.into_u64()));
         }
-        assert!(idx.start <= idx.end);
+        if idx.start > idx.end {
+            return Err(Error::OffsetOutOfBounds(idx.end.0.into_u64()));
+        }
         let size_of_header = self.header_size();
         let start = idx.start.0 - size_of_header;
         let end = idx.end.0 - size_of_header;
